@@ -569,6 +569,42 @@ const vreYang2 = `module vrpresence {
     leaf subid { type uint32; }
     leaf subkind { type leafref { path "/vrp:val/vrp:sub[vrp:id=current()/../vrp:subid]/vrp:kind"; } }
   }
+  list chl {
+    key name;
+    leaf name { type string; }
+    choice c {
+      leaf a { type string; }
+      leaf b { type string; }
+    }
+  }
+  container cons {
+    leaf-list refs { type leafref { path "/vrp:val/vrp:sub/vrp:kind"; } }
+    list tenant {
+      key name;
+      must "descr != 'forbidden'";
+      leaf name { type string; }
+      leaf descr { type string; }
+    }
+    leaf uni { type union { type string { pattern 'a+'; } type string { pattern 'b+'; } } }
+    leaf-list tags { type string { length "1..3"; } }
+    container mc {
+      leaf other { type string; }
+      choice c7 {
+        mandatory true;
+        leaf x1 { type string; }
+        leaf x2 { type string; }
+      }
+    }
+    container mcase {
+      choice c8 {
+        case y {
+          leaf y1 { type string; mandatory true; }
+          leaf y2 { type string; }
+        }
+        case z { leaf z1 { type string; } }
+      }
+    }
+  }
   container dr {
     leaf on { type string; }
     leaf target { type string; }
@@ -1127,6 +1163,89 @@ func TestVerifReplayNestedChoice(t *testing.T) {
 			}
 		}
 	}
+	// a choice directly in a list: the case members are children of the key-level entry, the resolvers sit on the list
+	{
+		type sc struct {
+			name    string
+			stored  []leaf // intent "stored", priority 5, also what the device runs
+			newOnes []leaf // intent "new", priority 10
+			want    map[string]string
+		}
+		for _, c := range []sc{
+			{"a stronger stored intent holds member a of the entry, the new intent sets member b",
+				[]leaf{{[]string{"chl", "k1", "name"}, "k1"}, {[]string{"chl", "k1", "a"}, "va"}},
+				[]leaf{{[]string{"chl", "k1", "name"}, "k1"}, {[]string{"chl", "k1", "b"}, "vb"}},
+				map[string]string{"chl/k1/name": "k1", "chl/k1/a": "va"}},
+			{"entries whose key values are the names of the case members",
+				nil,
+				[]leaf{{[]string{"chl", "a", "name"}, "a"}, {[]string{"chl", "a", "a"}, "1"}, {[]string{"chl", "b", "name"}, "b"}, {[]string{"chl", "b", "a"}, "2"}},
+				map[string]string{"chl/a/name": "a", "chl/a/a": "1", "chl/b/name": "b", "chl/b/a": "2"}},
+		} {
+			n++
+			ctx := context.Background()
+			mockCtrl := gomock.NewController(t)
+			scb := vreSchema2(t, mockCtrl)
+			var stored, running []*cache.Update
+			for _, l := range c.stored {
+				stored = append(stored, cache.NewUpdate(l.path, str(l.val), 5, "stored", 0))
+				running = append(running, cache.NewUpdate(l.path, str(l.val), RunningValuesPrio, RunningIntentName, 0))
+			}
+			ccMock := mockcacheclient.NewMockClient(mockCtrl)
+			testhelper.ConfigureCacheClientMock(t, ccMock, stored, running, []*cache.Update{}, [][]string{})
+			root, err := NewTreeRoot(ctx, NewTreeContext(NewTreeCacheClient("dev1", ccMock), scb, "new"))
+			if err != nil {
+				t.Fatal(err)
+			}
+			fNew, fExisting := NewUpdateInsertFlags(), NewUpdateInsertFlags()
+			fNew.SetNewFlag()
+			for _, l := range c.newOnes {
+				if _, err := root.AddCacheUpdateRecursive(ctx, cache.NewUpdate(l.path, str(l.val), 10, "new", 0), fNew); err != nil {
+					t.Fatal(err)
+				}
+			}
+			// what the transaction pipeline loads next to it: the other intents' values for the paths of the new one, and running
+			for _, u := range stored {
+				if _, err := root.AddCacheUpdateRecursive(ctx, u, fExisting); err != nil {
+					t.Fatal(err)
+				}
+			}
+			for _, u := range running {
+				if _, err := root.AddCacheUpdateRecursive(ctx, u, fExisting); err != nil {
+					t.Fatal(err)
+				}
+			}
+			root.FinishInsertionPhase(ctx)
+			device := map[string]string{}
+			for _, l := range c.stored {
+				device[strings.Join(l.path, "/")] = l.val
+			}
+			dels, err := root.ToProtoDeletes(ctx)
+			if err != nil {
+				t.Fatal(err)
+			}
+			for _, d := range dels {
+				dp := strings.Join(utils.ToStrings(d, false, false), "/")
+				for k := range device {
+					if k == dp || strings.HasPrefix(k, dp+"/") {
+						delete(device, k)
+					}
+				}
+			}
+			upds, err := root.ToProtoUpdates(ctx, true)
+			if err != nil {
+				t.Fatal(err)
+			}
+			for _, u := range upds {
+				device[strings.Join(utils.ToStrings(u.GetPath(), false, false), "/")] = u.GetValue().GetStringVal()
+			}
+			if fmt.Sprint(device) != fmt.Sprint(c.want) {
+				for _, fn := range fns {
+					fmt.Printf("REPLAY-FAIL fn=%s clause=choice_in_a_list_entry_is_resolved.known input=schema=list with a choice,%s why=the device is left with %v, the live intents merge to %v\n", fn, c.name, device, c.want)
+				}
+			}
+			mockCtrl.Finish()
+		}
+	}
 	for _, fn := range fns {
 		fmt.Printf("REPLAY-CASES fn=%s n=%d\n", fn, n)
 	}
@@ -1151,26 +1270,43 @@ func TestVerifReplaySchema2Validation(t *testing.T) {
 		p []string
 		v *sdcpb.TypedValue
 	}
+	ll := func(xs ...string) *sdcpb.TypedValue {
+		var el []*sdcpb.TypedValue
+		for _, x := range xs {
+			el = append(el, str(x))
+		}
+		return &sdcpb.TypedValue{Value: &sdcpb.TypedValue_LeaflistVal{LeaflistVal: &sdcpb.ScalarArray{Element: el}}}
+	}
 	scenarios := []struct {
 		name  string
 		fns   []string
 		conf  []pv
 		valid bool
+		known string // != "": a recorded finding, the clause it is listed under
 	}{
-		{"must '. > 5' on a uint32 of 10", nil, []pv{{[]string{"val", "usize"}, u(10)}}, true},
-		{"must '. > 5' on a uint32 of 3", nil, []pv{{[]string{"val", "usize"}, u(3)}}, false},
-		{"must '. > 5' on an int32 of 10", []string{"(*tree.yangParserEntryAdapter).valueToDatum"}, []pv{{[]string{"val", "size"}, i(10)}}, true},
-		{"must '. > 5' on an int32 of -10", []string{"(*tree.yangParserEntryAdapter).valueToDatum"}, []pv{{[]string{"val", "size"}, i(-10)}}, false},
-		{"must '. > 1.5' on a decimal64 of 2.50", []string{"(*tree.yangParserEntryAdapter).valueToDatum"}, []pv{{[]string{"val", "dec"}, dec(250, 2)}}, true},
-		{"must '. > 1.5' on a decimal64 of 1.25", []string{"(*tree.yangParserEntryAdapter).valueToDatum"}, []pv{{[]string{"val", "dec"}, dec(125, 2)}}, false},
-		{"must '../neg < 0' with an int8 of -4", []string{"(*tree.yangParserEntryAdapter).valueToDatum"}, []pv{{[]string{"val", "neg"}, i(-4)}, {[]string{"val", "negcheck"}, str("x")}}, true},
-		{"must '../neg < 0' with an int8 of 4", []string{"(*tree.yangParserEntryAdapter).valueToDatum"}, []pv{{[]string{"val", "neg"}, i(4)}, {[]string{"val", "negcheck"}, str("x")}}, false},
+		// constraint kinds that are not (or wrongly) enforced: recorded as known findings
+		{"leaf-list of leafrefs holding a value without a target", nil, []pv{{[]string{"cons", "refs"}, ll("ghost")}}, false, "leaflist_leafref_is_checked"},
+		{"must on a list that refers to a child leaf of the entry, satisfied", nil, []pv{{[]string{"cons", "tenant", "t1", "name"}, str("t1")}, {[]string{"cons", "tenant", "t1", "descr"}, str("fine")}}, true, "must_on_a_list_is_per_entry"},
+		{"union of two pattern-restricted strings, value matches neither", nil, []pv{{[]string{"cons", "uni"}, str("zzz")}}, false, "union_member_restrictions_are_checked"},
+		{"leaf-list of strings with a length restriction, an entry too long", nil, []pv{{[]string{"cons", "tags"}, ll("toolong")}}, false, "leaflist_entry_restrictions_are_checked"},
+		{"mandatory choice with one case filled", []string{"(*tree.sharedEntryAttributes).validateMandatory", "(*tree.sharedEntryAttributes).validateMandatoryWithKeys"}, []pv{{[]string{"cons", "mc", "other"}, str("o")}, {[]string{"cons", "mc", "x1"}, str("x")}}, true, ""},
+		{"mandatory choice with the other case filled", []string{"(*tree.sharedEntryAttributes).validateMandatory", "(*tree.sharedEntryAttributes).validateMandatoryWithKeys"}, []pv{{[]string{"cons", "mc", "x2"}, str("x")}}, true, ""},
+		{"mandatory choice with no case filled", []string{"(*tree.sharedEntryAttributes).validateMandatory", "(*tree.sharedEntryAttributes).validateMandatoryWithKeys"}, []pv{{[]string{"cons", "mc", "other"}, str("o")}}, false, ""},
+		{"mandatory leaf of the chosen case missing", nil, []pv{{[]string{"cons", "mcase", "y2"}, str("y")}}, false, "mandatory_leaf_in_a_case_is_enforced"},
+		{"must '. > 5' on a uint32 of 10", nil, []pv{{[]string{"val", "usize"}, u(10)}}, true, ""},
+		{"must '. > 5' on a uint32 of 3", nil, []pv{{[]string{"val", "usize"}, u(3)}}, false, ""},
+		{"must '. > 5' on an int32 of 10", []string{"(*tree.yangParserEntryAdapter).valueToDatum"}, []pv{{[]string{"val", "size"}, i(10)}}, true, ""},
+		{"must '. > 5' on an int32 of -10", []string{"(*tree.yangParserEntryAdapter).valueToDatum"}, []pv{{[]string{"val", "size"}, i(-10)}}, false, ""},
+		{"must '. > 1.5' on a decimal64 of 2.50", []string{"(*tree.yangParserEntryAdapter).valueToDatum"}, []pv{{[]string{"val", "dec"}, dec(250, 2)}}, true, ""},
+		{"must '. > 1.5' on a decimal64 of 1.25", []string{"(*tree.yangParserEntryAdapter).valueToDatum"}, []pv{{[]string{"val", "dec"}, dec(125, 2)}}, false, ""},
+		{"must '../neg < 0' with an int8 of -4", []string{"(*tree.yangParserEntryAdapter).valueToDatum"}, []pv{{[]string{"val", "neg"}, i(-4)}, {[]string{"val", "negcheck"}, str("x")}}, true, ""},
+		{"must '../neg < 0' with an int8 of 4", []string{"(*tree.yangParserEntryAdapter).valueToDatum"}, []pv{{[]string{"val", "neg"}, i(4)}, {[]string{"val", "negcheck"}, str("x")}}, false, ""},
 		{"leafref with a predicate fed from a uint32 leaf, target exists", []string{"(*tree.sharedEntryAttributes).resolve_leafref_key_path", "(*tree.sharedEntryAttributes).NavigateLeafRef", "(*tree.sharedEntryAttributes).validateLeafRefs"},
-			[]pv{{[]string{"val", "sub", "7", "id"}, u(7)}, {[]string{"val", "sub", "7", "kind"}, str("k7")}, {[]string{"val", "subid"}, u(7)}, {[]string{"val", "subkind"}, str("k7")}}, true},
+			[]pv{{[]string{"val", "sub", "7", "id"}, u(7)}, {[]string{"val", "sub", "7", "kind"}, str("k7")}, {[]string{"val", "subid"}, u(7)}, {[]string{"val", "subkind"}, str("k7")}}, true, ""},
 		{"leafref with a predicate fed from a uint32 leaf, target is another entry's", []string{"(*tree.sharedEntryAttributes).resolve_leafref_key_path", "(*tree.sharedEntryAttributes).NavigateLeafRef", "(*tree.sharedEntryAttributes).validateLeafRefs"},
-			[]pv{{[]string{"val", "sub", "7", "id"}, u(7)}, {[]string{"val", "sub", "7", "kind"}, str("k7")}, {[]string{"val", "sub", "3", "id"}, u(3)}, {[]string{"val", "sub", "3", "kind"}, str("k3")}, {[]string{"val", "subid"}, u(3)}, {[]string{"val", "subkind"}, str("k7")}}, false},
-		{"leafref with a default that resolves", []string{"(*tree.sharedEntryAttributes).validateLeafRefs"}, []pv{{[]string{"dr", "on"}, str("x")}, {[]string{"dr", "target"}, str("nope")}}, true},
-		{"leafref with a default that does not resolve", []string{"(*tree.sharedEntryAttributes).validateLeafRefs"}, []pv{{[]string{"dr", "on"}, str("x")}}, false},
+			[]pv{{[]string{"val", "sub", "7", "id"}, u(7)}, {[]string{"val", "sub", "7", "kind"}, str("k7")}, {[]string{"val", "sub", "3", "id"}, u(3)}, {[]string{"val", "sub", "3", "kind"}, str("k3")}, {[]string{"val", "subid"}, u(3)}, {[]string{"val", "subkind"}, str("k7")}}, false, ""},
+		{"leafref with a default that resolves", []string{"(*tree.sharedEntryAttributes).validateLeafRefs"}, []pv{{[]string{"dr", "on"}, str("x")}, {[]string{"dr", "target"}, str("nope")}}, true, ""},
+		{"leafref with a default that does not resolve", []string{"(*tree.sharedEntryAttributes).validateLeafRefs"}, []pv{{[]string{"dr", "on"}, str("x")}}, false, ""},
 	}
 	n := 0
 	for _, sc := range scenarios {
@@ -1214,9 +1350,15 @@ func TestVerifReplaySchema2Validation(t *testing.T) {
 					fmt.Printf("REPLAY-FAIL fn=%s clause=panic input=schema=stand-in,configuration=%s panic=%v\n", f, sc.name, v.panic)
 				}
 			} else if (len(v.errs) == 0) != sc.valid {
-				for _, f := range fns {
-					fmt.Printf("REPLAY-FAIL fn=%s clause=verdict_is_validity_of_the_result input=schema=stand-in,configuration=%s why=%d error(s) %v, the configuration is valid=%v\n", f, sc.name, len(v.errs), v.errs, sc.valid)
+				clause := "verdict_is_validity_of_the_result"
+				if sc.known != "" {
+					clause = sc.known + ".known"
 				}
+				for _, f := range fns {
+					fmt.Printf("REPLAY-FAIL fn=%s clause=%s input=schema=stand-in,configuration=%s why=%d error(s) %v, the configuration is valid=%v\n", f, clause, sc.name, len(v.errs), v.errs, sc.valid)
+				}
+			} else if sc.known != "" {
+				fmt.Printf("REPLAY-FAIL fn=%s clause=known_finding_is_stale input=schema=stand-in,configuration=%s why=the recorded finding %s no longer shows: remove it from the known findings\n", fn, sc.name, sc.known)
 			}
 		case <-time.After(10 * time.Second):
 			for _, f := range fns {
